@@ -558,3 +558,41 @@ def task_mutator(which):
         else:
             raise OutOfReach("unknown mutator %s" % which)
     return task
+
+
+# ---- what the repository's own devices accept (C04: "every registered device that accepts the message's device name") ----
+def task_accepts(which):
+    def task(I, run):
+        from pyvc.smt import get_s
+        if which == "Driver":
+            mod = I.import_module("indi.device.driver")
+            cls = mod.ns["Driver"]
+        else:
+            mod = I.import_module("indi.device.proxy")
+            cls = mod.ns["Proxy"]
+        d = IObject(cls)
+        name = I.fresh_sym("driver_name")
+        run.assume(is_str(name.term))
+        d.fields["_name"] = name
+        dev = I.fresh_sym("addressed")
+        run.assume(z3.Or(is_none(dev.term), is_str(dev.term)))
+
+        def w(m):
+            ev = lambda t: m.eval(t, model_completion=True)
+            dv = ev(dev.term)
+            return {"replay_kind": "router.accepts", "which": which, "name": ev(get_s(name.term)).as_string(),
+                    "device": None if str(dv) == "VNone" else ev(get_s(dv)).as_string()}
+        run.explorer.witness = w
+        f, _ = cls.lookup("accepts")
+        try:
+            r = I.call(IBound(f, d), [dev], {})
+        except IRaise as e:
+            run.fail("C04|%s.accepts/raises-nothing" % which, "accepts raised %s" % e)
+            return
+        rt = smt.truthy(I.to_term(r))
+        if which == "Driver":
+            run.oblige("C04|Driver.accepts/own-name-or-no-name-only", rt == z3.Or(is_none(dev.term), dev.term == name.term))
+        else:
+            run.oblige("C04|Proxy.accepts/catch-all", rt)
+        run.canary("C04|canary[%s.accepts]/never-accepts" % which, z3.Not(rt))
+    return task
